@@ -1834,6 +1834,11 @@ class Tensor:
 
         del placeholder_mutant_view
 
+        # An in-place update never changes the constant-flag of a tensor.
+        # (The flag of `mutant_base` was inferred from the internal
+        # placeholders, e.g. from the non-constant view that was the target)
+        mutant_base._constant = graph.base.tensor._constant
+
         # The original base now points to the augmented array data
         # and has the InPlaceOp as its creator
         _dup.mirror_tensor(source=mutant_base, target=graph.base.tensor)
